@@ -5,11 +5,9 @@
 (*   G  prints the document with the relations the nesting model demands,    *)
 (*      the relations of the as-is machine where they differ, and the full   *)
 (*      machine tree (compared as DRIFT only).                               *)
-EXTENDS Parser, ParserRef, Json
+EXTENDS ParserRefDoc, Json
 
 CONSTANTS Universe, MaxLines
-
-AllDevs == {"HlineClosesLevel1"}
 
 RECURSIVE MarkersOfLen(_)
 MarkersOfLen(n) == IF n = 0 THEN { <<>> } ELSE { Append(m, c) : m \in MarkersOfLen(n - 1), c \in {"*", "#"} }
@@ -31,22 +29,6 @@ Lines ==
     [] Universe = "F"  -> { [t |-> "H", l |-> l, f |-> TRUE] : l \in 1..3 } \cup { [t |-> "L", p |-> p, f |-> TRUE] : p \in Markers(2) }
                           \cup { [t |-> "P", f |-> TRUE], R, P }
 
-Words == [i \in 1..40 |-> "w" \o ToString(i)]   \* constant: evaluated once
-W(i) == Words[i]
-HasF(line) == "f" \in DOMAIN line /\ line.f
-Fil(line) == IF HasF(line) THEN << [k |-> "SP", n |-> 1], [k |-> "MAGIC", m |-> "F"] >> ELSE <<>>
-Tokens(line, i) ==
-  LET w == [k |-> "TXT", a |-> <<W(i)>>] IN
-  CASE line.t = "H" -> << [k |-> "HS", l |-> line.l], w >> \o Fil(line) \o << [k |-> "HE", l |-> line.l], [k |-> "NL"] >>
-    [] line.t = "L" -> << [k |-> "LP", p |-> line.p], [k |-> "SP", n |-> 1], w >> \o Fil(line) \o << [k |-> "NL"] >>
-    [] line.t = "P" -> << w >> \o Fil(line) \o << [k |-> "NL"] >>
-    [] line.t = "R" -> << [k |-> "HR"], [k |-> "NL"] >>
-    [] line.t = "B" -> << [k |-> "NL"] >>
-
-RECURSIVE FeedDoc(_, _, _, _)
-FeedDoc(st, d, i, Dev) == IF i > Len(d) THEN st ELSE FeedDoc(Feed(st, Tokens(d[i], i), 1, Dev), d, i + 1, Dev)
-MachineTree(d, Dev) == Finish(FeedDoc(InitState, d, 1, Dev), Dev).root
-
 VARIABLES doc, pst
 vars == <<doc, pst>>
 Init == doc = <<>> /\ pst = InitState
@@ -56,7 +38,6 @@ AddLine(l) == /\ Len(doc) < MaxLines
 Next == \E l \in Lines : AddLine(l)
 Spec == Init /\ [][Next]_vars
 
-Plain(d) == [i \in 1..Len(d) |-> [x \in (DOMAIN d[i]) \ {"f"} |-> d[i][x]]]
 AsIsRelevant == (\E i \in 1..Len(doc) : doc[i].t = "R") /\ (\E i \in 1..Len(doc) : doc[i].t = "H" /\ doc[i].l = 1)
 \* M: the transcribed algorithm (with the rule fix) realises the nesting model;
 \* G: the case is printed with what the model demands
